@@ -79,6 +79,7 @@ def dispatch (st : DriverState) (line : String) : DriverState × String :=
   | "aggspec" :: args => let (s, out) := Driver.Aggregator.specHandle st.aggregator args; ({ st with aggregator := s }, out)
   | "sys" :: args => let (s, out) := Driver.Sys.handle st.sys args; ({ st with sys := s }, out)
   | "runner" :: args => (st, Driver.Runner.handle args)
+  | "clientstop" :: args => (st, Driver.Runner.clientStop args)
   | "retrypolicy" :: args => let (s, out) := Driver.Backoff.handle st.backoff args; ({ st with backoff := s }, out)
   | ["ping"] => (st, "pong")
   | _ => (st, "bad-op")
